@@ -166,6 +166,26 @@ func (m *Machine) verifrt(name string, args []Value, g *Term, site ssa.Instructi
 	case "DropPending":
 		m.pendingGo = nil
 		return nil
+	case "Watch":
+		lp, _ := unwrapIface(args[0])
+		root, _ := unwrapIface(args[1])
+		lw := &lockWatch{objs: map[*Object]bool{}, lock: lp.(*PtrV)}
+		m.walk(root, TS.True, func(o *Object, g *Term) bool {
+			if lw.objs[o] {
+				return false
+			}
+			lw.objs[o] = true
+			return true
+		})
+		m.lockWatch = lw
+		return nil
+	case "Unwatch":
+		n := 0
+		if m.lockWatch != nil {
+			n = m.lockWatch.n
+		}
+		m.lockWatch = nil
+		return ConstI(64, int64(n))
 	case "LockHeld":
 		p, _ := unwrapIface(args[0])
 		return m.lockHeld(p.(*PtrV))
